@@ -368,10 +368,10 @@ Definition Pb14 (c : case) (o : obs) : bool :=
        Nat.eqb (List.length adds) (List.length xs) && Nat.eqb (List.length rems) (List.length xs)
        && forallb (fun xa => let '(x, a) := xa in                     (* Add *)
                     (Z.land a f =? f) && (Z.ldiff a f =? Z.ldiff x f)
-                    && (if a <? o_bitn o then hasb a else true)) (combine xs adds)
+                    && (if (0 <=? a) && (a <? o_bitn o) then hasb a else true)) (combine xs adds)
        && forallb (fun xr => let '(x, r) := xr in                     (* Remove *)
                     (Z.land r f =? 0) && (Z.ldiff r f =? Z.ldiff x f)
-                    && (if (r <? o_bitn o) && negb (f =? 0) then negb (hasb r) else true)) (combine xs rems)
+                    && (if (0 <=? r) && (r <? o_bitn o) && negb (f =? 0) then negb (hasb r) else true)) (combine xs rems)
        && forallb (fun x => Bool.eqb (hasb x) (Z.land x f =? f)) xs)  (* Has *)
      (o_bitops o).
 
